@@ -159,7 +159,7 @@ PROPS["C10"] = dict(
 PROPS["C18"] = dict(
     level="proof",
     verus=["c18_gate", "c18_stringify", "c16_resources"],
-    labels=["C18.", "C13.redirect_resource.", "C13.kind."],
+    labels=["C18.", "C13.redirect_resource.", "C13.kind.", "C16.resources."],
     kani=[KaniSet("src/resources/mod.rs", "c18_perm.rs", [
         Harness("c18_perm_subset", "C18.perm.subset", "C", "all 256x256 pairs; loop over the 8 bit positions fully unwound"),
         Harness("c18_perm_default", "C18.perm.default", "C", "all u8 x u8, loop-free"),
